@@ -491,6 +491,7 @@ impl VideoState {
               // pre-compute up to 10 sprites that overlap the current line
               self.find_current_line_sprites(vram, oam);
               interrupt_state |= self.check_mode_interrupt();
+              interrupt_state |= self.check_current_line();
             }
           }
         },
